@@ -372,18 +372,38 @@ Ltac proj :=
   cbn [par rt kid pend q dirty cache regd unregd disp fx
        set_par set_rt set_kid set_pend set_q set_dirty set_cache set_regd set_unregd set_disp set_fx enq].
 
+(* the re-fired prepare_unregister events only extend the queue of the new root *)
+Definition same_but_q (s s' : st) : Prop :=
+  par s' = par s /\ rt s' = rt s /\ kid s' = kid s /\ pend s' = pend s /\ dirty s' = dirty s /\
+  cache s' = cache s /\ regd s' = regd s /\ unregd s' = unregd s /\ disp s' = disp s /\ fx s' = fx s.
+
+Lemma refire_frame : forall l c s, same_but_q s (refire l c s).
+Proof.
+  induction l as [|d t IH]; intros c s; simpl.
+  - repeat split.
+  - exact (IH c (enq c (PrepUnreg d) s)).
+Qed.
+
+Lemma same_but_q_inv : forall n s s', Inv n s -> same_but_q s s' -> Inv n s'.
+Proof.
+  intros n s s' I [A1 [A2 [A3 [A4 [A5 [A6 [A7 [A8 [A9 A10]]]]]]]]].
+  unfold Inv in *. rewrite A1, A2, A3, A4, A5, A6, A9. exact I.
+Qed.
+
 Lemma complete_ok : forall n c s s', complete n c s = Ok s' ->
-  pend s c = true /\
-  (par s c <> c ->
-   exists f, upd_root n (S n) (upd2 (kid s) (par s c) c false) c c (rt s) = Some f /\
-     s' = mkst (upd (par s) c c) f (upd2 (kid s) (par s c) c false) (upd (pend s) c false)
-               (upd (q s) (rt s c) (q s (rt s c) ++ [Unregistered c (par s c)]))
-               (upd (upd (dirty s) (rt s (par s c)) true) c true) (cache s) (regd s)
-               ((c, par s c) :: unregd s) (disp s) (fx s)).
+  (pend s c = false /\ s' = s) \/
+  (pend s c = true /\
+   (par s c <> c ->
+    exists f, upd_root n (S n) (upd2 (kid s) (par s c) c false) c c (rt s) = Some f /\
+      s' = refire (refire_list n c s) c
+             (mkst (upd (par s) c c) f (upd2 (kid s) (par s c) c false) (upd (pend s) c false)
+                   (upd (q s) (rt s c) (q s (rt s c) ++ [Unregistered c (par s c)]))
+                   (upd (upd (dirty s) (rt s (par s c)) true) c true) (cache s) (regd s)
+                   ((c, par s c) :: unregd s) (disp s) (fx s)))).
 Proof.
   intros n c s s' H. unfold complete in H.
-  destruct (pend s c) eqn:Hp; [|discriminate]. split; [reflexivity|]. intro Hatt.
-  cbn [negb] in H. proj_in H.
+  destruct (pend s c) eqn:Hp; cbn [negb] in H; [|left; inversion H; split; reflexivity].
+  right. split; [reflexivity|]. intro Hatt. proj_in H.
   destruct (par s c =? c) eqn:E; [apply Nat.eqb_eq in E; contradiction|].
   destruct (kid s (par s c) c) eqn:Hk; cbn [negb] in H; [|discriminate].
   proj_in H.
@@ -475,17 +495,20 @@ Qed.
 Lemma complete_inv : forall n c s s', Inv n s -> complete n c s = Ok s' ->
   Inv n s' /\ (forall r, par s r = r -> par s' r = r).
 Proof.
-  intros n c s s' I H. destruct (complete_ok _ _ _ _ H) as [Hp Hrest].
+  intros n c s s' I H. destruct (complete_ok _ _ _ _ H) as [[_ ->]|[Hp Hrest]]; [split; [exact I | auto]|].
   assert (Hatt : par s c <> c) by (apply (i_pend _ _ _ _ _ _ _ _ I); exact Hp).
-  destruct (Hrest Hatt) as [f [Hu ->]]. split.
-  - unfold Inv; proj. apply unreg_invF; [exact I | exact Hatt|].
+  destruct (Hrest Hatt) as [f [Hu ->]].
+  match goal with |- Inv n (refire ?l c ?s4) /\ _ => pose proof (refire_frame l c s4) as Fr end.
+  split.
+  - eapply same_but_q_inv; [|exact Fr].
+    unfold Inv; proj. apply unreg_invF; [exact I | exact Hatt|].
     eapply upd_root_spec; [|exact Hu].
     intros a b Hab. destruct (Nat.eq_dec a (par s c)) as [->|Na]; destruct (Nat.eq_dec b c) as [->|Nb].
     + rewrite upd2_same in Hab. discriminate.
     + rewrite upd2_other in Hab by tauto. eapply (i_kidlt _ _ _ _ _ _ _ _ I); exact Hab.
     + rewrite upd2_other in Hab by tauto. eapply (i_kidlt _ _ _ _ _ _ _ _ I); exact Hab.
     + rewrite upd2_other in Hab by tauto. eapply (i_kidlt _ _ _ _ _ _ _ _ I); exact Hab.
-  - intros r Hr. proj. destruct (Nat.eq_dec r c) as [->|N]; [apply upd_same|].
+  - intros r Hr. destruct Fr as [A1 _]. rewrite A1. proj. destruct (Nat.eq_dec r c) as [->|N]; [apply upd_same|].
     rewrite upd_other by exact N. exact Hr.
 Qed.
 
@@ -578,15 +601,17 @@ Proof.
 Qed.
 
 (* a component that completes its unregistration takes its whole subtree with it *)
-Lemma detach_connected : forall n c s s', Inv n s -> complete n c s = Ok s' ->
+Lemma detach_connected : forall n c s s', Inv n s -> pend s c = true -> complete n c s = Ok s' ->
   par s' c = c /\ pend s' c = false /\ kid s' (par s c) c = false /\
   (forall x, desc (kid s) c x ->
      rt s' x = c /\ desc (kid s') c x /\ (x <> c -> par s' x = par s x /\ kid s' (par s x) x = kid s (par s x) x)) /\
   (forall x, ~ desc (kid s) c x -> rt s' x = rt s x /\ par s' x = par s x).
 Proof.
-  intros n c s s' I H. destruct (complete_ok _ _ _ _ H) as [Hp Hrest].
+  intros n c s s' I Hp H. destruct (complete_ok _ _ _ _ H) as [[Hp' _]|[_ Hrest]]; [congruence|].
   assert (Hatt : par s c <> c) by (apply (i_pend _ _ _ _ _ _ _ _ I); exact Hp).
-  destruct (Hrest Hatt) as [f [Hu ->]]. proj.
+  destruct (Hrest Hatt) as [f [Hu ->]].
+  match goal with |- par (refire ?l c ?s4) c = c /\ _ => destruct (refire_frame l c s4) as [A1 [A2 [A3 [A4 _]]]] end.
+  rewrite A1, A2, A3, A4. proj.
   assert (Hg : ur_spec (upd2 (kid s) (par s c) c false) c c (rt s) f).
   { eapply upd_root_spec; [|exact Hu]. intros a b Hab.
     destruct (Nat.eq_dec a (par s c)) as [->|Na]; destruct (Nat.eq_dec b c) as [->|Nb];
@@ -693,11 +718,15 @@ Qed.
 Lemma complete_disp : forall n c s s', complete n c s = Ok s' -> disp s' = disp s.
 Proof.
   intros n c s s' H. unfold complete in H.
-  destruct (pend s c); cbn [negb] in H; [|discriminate]. proj_in H.
+  destruct (pend s c); cbn [negb] in H; [|inversion H; reflexivity]. proj_in H.
   destruct (par s c =? c).
-  - destruct (upd_root _ _ _ _ _ _); [|discriminate]. inversion H. reflexivity.
+  - destruct (upd_root _ _ _ _ _ _); [|discriminate]. inversion H.
+    match goal with |- disp (refire ?l c ?s4) = _ => destruct (refire_frame l c s4) as [A1 [A2 [A3 [A4 [A5 [A6 [A7 [A8 [A9 A10]]]]]]]]] end.
+    rewrite A9. reflexivity.
   - destruct (kid s (par s c) c); cbn [negb] in H; [|discriminate]. proj_in H.
-    destruct (upd_root _ _ _ _ _ _); [|discriminate]. inversion H. reflexivity.
+    destruct (upd_root _ _ _ _ _ _); [|discriminate]. inversion H.
+    match goal with |- disp (refire ?l c ?s4) = _ => destruct (refire_frame l c s4) as [A1 [A2 [A3 [A4 [A5 [A6 [A7 [A8 [A9 A10]]]]]]]]] end.
+    rewrite A9. reflexivity.
 Qed.
 
 
@@ -787,11 +816,15 @@ Qed.
 Lemma complete_regd : forall n c s s', complete n c s = Ok s' -> regd s' = regd s.
 Proof.
   intros n c s s' H. unfold complete in H.
-  destruct (pend s c); cbn [negb] in H; [|discriminate]. proj_in H.
+  destruct (pend s c); cbn [negb] in H; [|inversion H; reflexivity]. proj_in H.
   destruct (par s c =? c).
-  - destruct (upd_root _ _ _ _ _ _); [|discriminate]. inversion H. reflexivity.
+  - destruct (upd_root _ _ _ _ _ _); [|discriminate]. inversion H.
+    match goal with |- regd (refire ?l c ?s4) = _ => destruct (refire_frame l c s4) as [A1 [A2 [A3 [A4 [A5 [A6 [A7 [A8 [A9 A10]]]]]]]]] end.
+    rewrite A7. reflexivity.
   - destruct (kid s (par s c) c); cbn [negb] in H; [|discriminate]. proj_in H.
-    destruct (upd_root _ _ _ _ _ _); [|discriminate]. inversion H. reflexivity.
+    destruct (upd_root _ _ _ _ _ _); [|discriminate]. inversion H.
+    match goal with |- regd (refire ?l c ?s4) = _ => destruct (refire_frame l c s4) as [A1 [A2 [A3 [A4 [A5 [A6 [A7 [A8 [A9 A10]]]]]]]]] end.
+    rewrite A7. reflexivity.
 Qed.
 
 (* one dispatch, decomposed *)
@@ -928,12 +961,6 @@ Qed.
 Definition occ (n : nat) (qf : comp -> list ev) (rem : list ev) (c : comp) : nat :=
   qcount n qf (PrepUnreg c) + qcount n qf (PrepDone c) + cnt (PrepUnreg c) rem + cnt (PrepDone c) rem.
 
-(* dispatched prepare_unregister(c) events whose completion event is still held back by their effects *)
-Definition wcount (c : comp) (l : list (nat * comp)) : nat := length (filter (fun e => snd e =? c) l).
-
-Definition PI (n : nat) (s : st) (rem : list ev) : Prop :=
-  forall c, occ n (q s) rem c + wcount c (wl (fx s)) <= (if pend s c then 1 else 0).
-
 Lemma cnt_cons : forall e e0 t, cnt e (e0 :: t) = (if ev_eqb e e0 then 1 else 0) + cnt e t.
 Proof. intros. unfold cnt. simpl. destruct (ev_eqb e e0); reflexivity. Qed.
 
@@ -982,7 +1009,7 @@ Qed.
 Definition BI (n : nat) (s : st) (rem : list ev) : Prop :=
   forall e, isann e = true -> tot n s e + cnt e rem = gh s e.
 
-Definition GI (n : nat) (s : st) (rem : list ev) : Prop := Inv n s /\ PI n s rem /\ BI n s rem.
+Definition GI (n : nat) (s : st) (rem : list ev) : Prop := Inv n s /\ BI n s rem.
 
 (* outcome discipline: Ok with the postcondition, or one of the two verdicts on the hypotheses; never a
    crash, never out of fuel *)
@@ -992,13 +1019,9 @@ Definition post {A : Type} (P : A -> Prop) (r : res A) : Prop :=
 Lemma isann_prep : forall e c, isann e = true -> ev_eqb e (PrepUnreg c) = false /\ ev_eqb e (PrepDone c) = false.
 Proof. intros e c A. destruct e; simpl in A; try discriminate; split; reflexivity. Qed.
 
-(* the completion tracking does not enter the invariants, except for the waiting list *)
-Lemma gi_set_fx : forall n s rem x, GI n s rem -> wl x = wl (fx s) -> GI n (set_fx s x) rem.
-Proof.
-  intros n s rem x [I [H B]] W. split; [exact I|]. split.
-  - intro c. specialize (H c). proj. rewrite W. exact H.
-  - exact B.
-Qed.
+(* the completion tracking does not enter the invariants *)
+Lemma gi_set_fx : forall n s rem x, GI n s rem -> GI n (set_fx s x) rem.
+Proof. intros n s rem x G. exact G. Qed.
 
 Lemma emit_fx_wl : forall c R e x, wl (emit_fx c R e x) = wl x.
 Proof. intros c R e x. destruct e; reflexivity. Qed.
@@ -1034,16 +1057,15 @@ Qed.
 
 Lemma register_gi : forall n c p s s' rem, GI n s rem -> register n c p s = Ok s' -> GI n s' rem.
 Proof.
-  intros n c p s s' rem [I [H B]] R.
+  intros n c p s s' rem [I B] R.
   pose proof (register_qcount _ _ _ _ _ I R) as Q.
   destruct (register_fields _ _ _ _ _ R) as [Fp [Fd [Fu [Fr Fx]]]].
-  split; [eapply register_inv; eassumption|]. split.
-  - intro c'. specialize (H c'). unfold occ in *. rewrite !Q, Fp, Fx. simpl. lia.
-  - intros e A. specialize (B e A). unfold tot, gh in *. rewrite Q, Fd.
-    destruct e as [|a b|a b| | |]; simpl in A; try discriminate.
-    + rewrite Fr. simpl in B |- *. unfold cntp in *. simpl.
-      destruct ((a =? c) && (b =? p)); simpl; lia.
-    + rewrite Fu. simpl in B |- *. lia.
+  split; [eapply register_inv; eassumption|].
+  intros e A. specialize (B e A). unfold tot, gh in *. rewrite Q, Fd.
+  destruct e as [|a b|a b| | |]; simpl in A; try discriminate.
+  - rewrite Fr. simpl in B |- *. unfold cntp in *. simpl.
+    destruct ((a =? c) && (b =? p)); simpl; lia.
+  - rewrite Fu. simpl in B |- *. lia.
 Qed.
 
 Lemma register_safe : forall n c p s, Inv n s -> post (fun _ => True) (register n c p s).
@@ -1079,30 +1101,23 @@ Qed.
 Lemma unregister_gi : forall n c s s' rem, GI n s rem -> unregister n c s = Ok s' ->
   GI n s' rem /\ par s' = par s /\ rt s' = rt s /\ disp s' = disp s /\ fx s' = fx s.
 Proof.
-  intros n c s s' rem [I [H B]] U. pose proof (unregister_inv _ _ _ _ I U) as I'.
+  intros n c s s' rem [I B] U. pose proof (unregister_inv _ _ _ _ I U) as I'.
   unfold unregister in U. destruct (c <? n); [|discriminate].
   destruct (par s c =? c); [discriminate|]. cbn [andb negb] in U.
   destruct (pend s c) eqn:Hp; inversion U; subst; clear U.
-  - split; [split; [exact I | split; assumption] | repeat split].
-  - split; [|repeat split]. split; [exact I'|]. split.
-    + intro c'. pose proof (H c') as H'. unfold occ in *. proj.
-      pose proof (qcount_enq_le n (PrepUnreg c') (q s) (rt s c) (PrepUnreg c)) as L1.
-      rewrite (qcount_enq_other n (PrepDone c')) by reflexivity.
-      simpl in L1. destruct (Nat.eq_dec c' c) as [->|N].
-      * rewrite upd_same. rewrite Hp in H'. rewrite Nat.eqb_refl in L1. lia.
-      * rewrite upd_other by exact N. rewrite (proj2 (Nat.eqb_neq _ _) N) in L1. lia.
-    + intros e A. specialize (B e A). unfold tot, gh in *. proj.
-      rewrite qcount_enq_other by (apply (isann_prep e c A)). exact B.
+  - split; [split; assumption | repeat split].
+  - split; [|repeat split]. split; [exact I'|].
+    intros e A. specialize (B e A). unfold tot, gh in *. proj.
+    rewrite qcount_enq_other by (apply (isann_prep e c A)). exact B.
 Qed.
 
 Lemma fire_gi : forall n x i s s' rem, GI n s rem -> fire n x i s = Ok s' ->
   GI n s' rem /\ par s' = par s /\ rt s' = rt s /\ disp s' = disp s /\ fx s' = fx s.
 Proof.
-  intros n x i s s' rem [I [H B]] F. unfold fire in F. destruct (x <? n); [|discriminate].
-  inversion F; subst; clear F. split; [|repeat split]. split; [exact I|]. split.
-  - intro c. specialize (H c). unfold occ in *. proj. rewrite !qcount_enq_other by reflexivity. exact H.
-  - intros e A. specialize (B e A). unfold tot, gh in *. proj.
-    rewrite qcount_enq_other by (destruct e; simpl in A; try discriminate; reflexivity). exact B.
+  intros n x i s s' rem [I B] F. unfold fire in F. destruct (x <? n); [|discriminate].
+  inversion F; subst; clear F. split; [|repeat split]. split; [exact I|].
+  intros e A. specialize (B e A). unfold tot, gh in *. proj.
+  rewrite qcount_enq_other by (destruct e; simpl in A; try discriminate; reflexivity). exact B.
 Qed.
 
 (* ------------------------------------------------------------------ what handlers do *)
@@ -1119,18 +1134,18 @@ Proof.
     pose proof (register_safe n c p s (proj1 G)) as S. unfold registerX.
     destruct (register n c p s) as [s'| | | |] eqn:R; try exact S.
     simpl. destruct (register_fields _ _ _ _ _ R) as [_ [Fd [_ [_ Fx]]]]. split.
-    + apply gi_set_fx; [eapply register_gi; eassumption|]. rewrite Fx. reflexivity.
+    + apply gi_set_fx. eapply register_gi; eassumption.
     + destruct (register_other_tree _ _ _ _ _ r (proj1 G) R E Hr) as [K1 K2].
       split; [exact K1 | split; [exact K2 | exact Fd]].
   - unfold unregisterX. destruct (unregister n c s) as [s'| | | |] eqn:U; simpl; try exact Logic.I.
     + destruct (unregister_gi _ _ _ _ _ G U) as [G' [E1 [E2 [E3 E4]]]]. split.
-      * apply gi_set_fx; [exact G'|]. rewrite E4. destruct (pend s c); reflexivity.
+      * apply gi_set_fx. exact G'.
       * split; [proj; rewrite E1; exact Hr | split; [intros y Hy; proj; rewrite E2; exact Hy | exact E3]].
     + unfold unregister in U. destruct ((c <? n) && negb (par s c =? c)); [destruct (pend s c)|]; discriminate.
     + unfold unregister in U. destruct ((c <? n) && negb (par s c =? c)); [destruct (pend s c)|]; discriminate.
   - unfold fireX. destruct (fire n x i s) as [s'| | | |] eqn:F; simpl; try exact Logic.I.
     + destruct (fire_gi _ _ _ _ _ _ G F) as [G' [E1 [E2 [E3 E4]]]]. split.
-      * apply gi_set_fx; [exact G'|]. rewrite E4. reflexivity.
+      * apply gi_set_fx. exact G'.
       * split; [proj; rewrite E1; exact Hr | split; [intros y Hy; proj; rewrite E2; exact Hy | exact E3]].
     + unfold fire in F. destruct (x <? n); discriminate.
     + unfold fire in F. destruct (x <? n); discriminate.
@@ -1178,99 +1193,54 @@ Qed.
 
 (* ------------------------------------------------------------------ the end of a dispatch: closures *)
 
-Lemma wl_remove_count : forall A l c, wl_find A l = Some c ->
-  forall c', wcount c' (wl_remove A l) + (if c' =? c then 1 else 0) = wcount c' l.
-Proof.
-  intros A. induction l as [|[B d] t IH]; intros c H c'; simpl in H; [discriminate|].
-  unfold wcount in *. simpl. destruct (A =? B).
-  - inversion H; subst. simpl. rewrite (Nat.eqb_sym c c'). destruct (c' =? c); simpl; lia.
-  - specialize (IH c H c'). simpl. destruct (d =? c'); simpl; lia.
-Qed.
-
-(* the prepare_unregister event that has just been dispatched still counts until its completion event is
-   fired or it is put on the waiting list *)
-Definition own (e0 : ev) (c : comp) : nat :=
-  match e0 with PrepUnreg a => if c =? a then 1 else 0 | _ => 0 end.
-
-Definition PIx (n : nat) (s : st) (rem : list ev) (e0 : ev) : Prop :=
-  forall c, occ n (q s) rem c + wcount c (wl (fx s)) + own e0 c <= (if pend s c then 1 else 0).
-
-Lemma pix_of_pi : forall n s e0 t, PI n s (e0 :: t) -> PIx n s t e0.
-Proof.
-  intros n s e0 t H c. specialize (H c). unfold occ in *. rewrite !cnt_cons in H.
-  destruct e0; simpl in H |- *; lia.
-Qed.
-
 Definition same_frame (s s' : st) : Prop := par s' = par s /\ rt s' = rt s /\ disp s' = disp s.
 
-(* firing the completion event of c consumes one unit of the budget of c *)
-Lemma fire_done_gi : forall n R c s x rem k,
-  Inv n s -> BI n s rem ->
-  (forall c', occ n (q s) rem c' + wcount c' (wl x) + (if c' =? c then 1 else 0) + k c' <= (if pend s c' then 1 else 0)) ->
-  let s' := emitX None R (PrepDone c) (set_fx s x) in
-  Inv n s' /\ BI n s' rem /\ same_frame s s' /\
-  (forall c', occ n (q s') rem c' + wcount c' (wl (fx s')) + k c' <= (if pend s' c' then 1 else 0)).
+(* firing a completion event changes nothing the invariants look at *)
+Lemma fire_done_gi : forall n R c s x rem, Inv n s -> BI n s rem ->
+  Inv n (emitX None R (PrepDone c) (set_fx s x)) /\ BI n (emitX None R (PrepDone c) (set_fx s x)) rem /\
+  same_frame s (emitX None R (PrepDone c) (set_fx s x)).
 Proof.
-  intros n R c s x rem k I B H s'. unfold s', emitX. split; [exact I|]. split; [|split; [repeat split|]].
-  - intros e A. specialize (B e A). unfold tot, gh in *. proj.
-    rewrite qcount_enq_other by (apply (isann_prep e c A)). exact B.
-  - intro c'. specialize (H c'). unfold occ in *. proj. rewrite emit_fx_wl. proj.
-    pose proof (qcount_enq_le n (PrepDone c') (q s) R (PrepDone c)) as L.
-    rewrite (qcount_enq_other n (PrepUnreg c')) by reflexivity. simpl in L. lia.
+  intros n R c s x rem I B. unfold emitX. split; [exact I|]. split; [|repeat split].
+  intros e A. specialize (B e A). unfold tot, gh in *. proj.
+  rewrite qcount_enq_other by (apply (isann_prep e c A)). exact B.
 Qed.
 
-Lemma finish_anc_gi : forall n r tg s rem, Inv n s -> PI n s rem -> BI n s rem ->
+Lemma finish_anc_gi : forall n r tg s rem, Inv n s -> BI n s rem ->
   GI n (finish_anc r tg s) rem /\ same_frame s (finish_anc r tg s).
 Proof.
-  intros n r. induction tg as [|A t IH]; intros s rem I H B; cbn [finish_anc]; cbv zeta.
-  - split; [split; [exact I | split; assumption] | repeat split].
+  intros n r. induction tg as [|A t IH]; intros s rem I B; cbn [finish_anc]; cbv zeta.
+  - split; [split; assumption | repeat split].
   - destruct (wl_find A (wl (fx s))) as [c|] eqn:F; [|apply IH; assumption].
     destruct (out (dec (fx s) A) A =? 0).
-    + destruct (fire_done_gi n (rt s r) c s (set_wl (dec (fx s) A) (wl_remove A (wl (dec (fx s) A)))) rem
-                  (fun _ => 0) I B) as [I1 [B1 [[F1 [F2 F3]] H1]]].
-      { intro c'. specialize (H c'). pose proof (wl_remove_count _ _ _ F c') as W. simpl. lia. }
-      assert (P1 : PI n (emitX None (rt s r) (PrepDone c)
-                          (set_fx s (set_wl (dec (fx s) A) (wl_remove A (wl (dec (fx s) A)))))) rem).
-      { intro c'. specialize (H1 c'). cbv beta in H1. lia. }
-      destruct (IH _ rem I1 P1 B1) as [G2 [K1 [K2 K3]]].
+    + destruct (fire_done_gi n (rt s r) c s (set_wl (dec (fx s) A) (wl_remove A (wl (dec (fx s) A)))) rem I B)
+        as [I1 [B1 [F1 [F2 F3]]]].
+      destruct (IH _ rem I1 B1) as [G2 [K1 [K2 K3]]].
       split; [exact G2|]. split; [rewrite K1; exact F1 | split; [rewrite K2; exact F2 | rewrite K3; exact F3]].
     + apply (IH (set_fx s (dec (fx s) A)) rem); assumption.
 Qed.
 
-Lemma finish_gi : forall n r e0 tg s rem, Inv n s -> PIx n s rem e0 -> BI n s rem ->
+Lemma finish_gi : forall n r e0 tg s rem, Inv n s -> BI n s rem ->
   GI n (finish r e0 tg s) rem /\ same_frame s (finish r e0 tg s).
 Proof.
-  intros n r e0 tg s rem I H B.
-  assert (Plain : own e0 = (fun _ => 0) -> GI n (finish_anc r tg s) rem /\ same_frame s (finish_anc r tg s)).
-  { intro E. apply finish_anc_gi; [exact I | | exact B]. intro c. specialize (H c). rewrite E in H. lia. }
-  destruct e0 as [i|a b|a b|a|a|]; try (apply Plain; reflexivity).
+  intros n r e0 tg s rem I B.
+  destruct e0 as [i|a b|a b|a|a|]; try (apply finish_anc_gi; assumption).
   unfold finish. cbv zeta. destruct tg as [|Bid t].
-  - destruct (fire_done_gi n (rt s r) a s (fx s) rem (fun _ => 0) I B) as [I1 [B1 [Fr H1]]].
-    { intro c. specialize (H c). simpl in H. lia. }
-    split; [|exact Fr]. split; [exact I1|]. split; [|exact B1].
-    intro c. specialize (H1 c). cbv beta in H1. unfold emitX in *. proj_in H1. proj. lia.
+  - destruct (fire_done_gi n (rt s r) a s (fx s) rem I B) as [I1 [B1 Fr]].
+    split; [split; [exact I1 | exact B1] | exact Fr].
   - destruct (out (dec (fx s) Bid) Bid =? 0).
-    + destruct (fire_done_gi n (rt s r) a s (dec (fx s) Bid) rem (fun _ => 0) I B) as [I1 [B1 [[F1 [F2 F3]] H1]]].
-      { intro c. specialize (H c). simpl in H |- *. lia. }
-      assert (P1 : PI n (emitX None (rt s r) (PrepDone a) (set_fx s (dec (fx s) Bid))) rem).
-      { intro c. specialize (H1 c). cbv beta in H1. lia. }
-      destruct (finish_anc_gi n r t _ rem I1 P1 B1) as [G2 [K1 [K2 K3]]].
+    + destruct (fire_done_gi n (rt s r) a s (dec (fx s) Bid) rem I B) as [I1 [B1 [F1 [F2 F3]]]].
+      destruct (finish_anc_gi n r t _ rem I1 B1) as [G2 [K1 [K2 K3]]].
       split; [exact G2|]. split; [rewrite K1; exact F1 | split; [rewrite K2; exact F2 | rewrite K3; exact F3]].
     + apply (finish_anc_gi n r t (set_fx s (set_wl (dec (fx s) Bid) ((Bid, a) :: wl (dec (fx s) Bid)))) rem);
-        [exact I | | exact B].
-      intro c. specialize (H c). proj. simpl in H |- *. unfold wcount in *. simpl.
-      rewrite (Nat.eqb_sym a c). destruct (c =? a); simpl; lia.
+        assumption.
 Qed.
 
 (* ------------------------------------------------------------------ one dispatch *)
 
-Lemma gi_same : forall n s s1 rem, PI n s rem -> BI n s rem ->
-  q s1 = q s -> pend s1 = pend s -> disp s1 = disp s -> regd s1 = regd s -> unregd s1 = unregd s ->
-  fx s1 = fx s -> PI n s1 rem /\ BI n s1 rem.
+Lemma gi_same : forall n s s1 rem, BI n s rem ->
+  q s1 = q s -> disp s1 = disp s -> regd s1 = regd s -> unregd s1 = unregd s -> BI n s1 rem.
 Proof.
-  intros n s s1 rem H B Q P D R U X. split.
-  - intro c. specialize (H c). unfold occ in *. rewrite Q, P, X. exact H.
-  - intros e A. specialize (B e A). unfold tot, gh in *. rewrite Q, D, R, U. exact B.
+  intros n s s1 rem B Q D R U e A. specialize (B e A). unfold tot, gh in *. rewrite Q, D, R, U. exact B.
 Qed.
 
 Lemma lookup_fx : forall n r e s, fx (fst (lookup n r e s)) = fx s.
@@ -1281,21 +1251,28 @@ Qed.
 Definition disp1 (r : comp) (e : ev) (s s' : st) : Prop :=
   exists d, disp s' = d :: disp s /\ d_root d = r /\ d_ev d = e.
 
+Lemma refire_qcount : forall n l c s e, (forall d, ev_eqb e (PrepUnreg d) = false) ->
+  qcount n (q (refire l c s)) e = qcount n (q s) e.
+Proof.
+  intros n. induction l as [|d t IH]; intros c s e H; [reflexivity|].
+  cbn [refire fold_left]. fold (refire t c (enq c (PrepUnreg d) s)). rewrite IH by exact H. proj.
+  apply qcount_enq_other. apply H.
+Qed.
+
 Lemma dispatch_post : forall n r e0 hs tg t s, GI n s (e0 :: t) -> par s r = r ->
   post (fun s' => GI n s' t /\ par s' r = r /\ disp1 r e0 s s') (dispatch n r ((e0, hs), tg) s).
 Proof.
-  intros n r e0 hs tg t s [I [H B]] Hr. unfold dispatch.
-  pose proof (lookup_fx n r e0 s) as Lx.
-  destruct (lookup n r e0 s) as [s1 ms] eqn:Hl. simpl in Lx.
+  intros n r e0 hs tg t s [I B] Hr. unfold dispatch.
+  destruct (lookup n r e0 s) as [s1 ms] eqn:Hl.
   destruct (lookup_inv _ _ _ _ _ _ I Hr Hl) as [I1 [Hms T]].
   destruct T as [T1 [T2 [T3 [T4 [T5 [T6 [T7 T8]]]]]]].
-  destruct (gi_same n s s1 (e0 :: t) H B T5 T4 T8 T6 T7 Lx) as [H1 B1].
+  pose proof (gi_same n s s1 (e0 :: t) B T5 T8 T6 T7) as B1.
   assert (Hr1 : par s1 r = r) by (rewrite T1; exact Hr).
   destruct (hs_ok e0 ms hs); [|exact Logic.I]. cbv zeta.
   set (c0 := match tg return ctx with [] => None | _ => Some (r, tg) end).
-  pose proof (handlers_post c0 n r hs ms true s1 (e0 :: t) (conj I1 (conj H1 B1)) Hr1 Hms) as P.
+  pose proof (handlers_post c0 n r hs ms true s1 (e0 :: t) (conj I1 B1) Hr1 Hms) as P.
   destruct (run_handlers c0 n r ms hs true s1) as [[s1' ok]| | | |]; try exact P.
-  simpl in P. destruct P as [[I1' [H1' B1']] [[K1 [K2 K3]] Eok]]. subst ok.
+  simpl in P. destruct P as [[I1' B1'] [[K1 [K2 K3]] Eok]]. subst ok.
   set (d := mkd r e0 ms true).
   set (s2 := set_disp s1' (d :: disp s1')).
   assert (I2 : Inv n s2).
@@ -1307,27 +1284,27 @@ Proof.
   assert (B2 : BI n s2 t).
   { intros e A. specialize (B1' e A). unfold tot, gh, s2 in *. proj. rewrite cnt_cons in B1'.
     unfold dcount in *. unfold d. simpl. destruct (ev_eqb e e0); simpl; lia. }
-  assert (H2 : PI n s2 (e0 :: t)) by exact H1'.
   clearbody s2.
   (* the last step: closures *)
-  assert (Fin : forall s3, Inv n s3 -> PIx n s3 t e0 -> BI n s3 t -> par s3 r = r -> disp1 r e0 s s3 ->
+  assert (Fin : forall s3, Inv n s3 -> BI n s3 t -> par s3 r = r -> disp1 r e0 s s3 ->
                 GI n (finish r e0 tg s3) t /\ par (finish r e0 tg s3) r = r /\ disp1 r e0 s (finish r e0 tg s3)).
-  { intros s3 I3 P3 B3 Hr3 [d3 [E1 E2]].
-    destruct (finish_gi n r e0 tg s3 t I3 P3 B3) as [G4 [F1 [F2 F3]]].
+  { intros s3 I3 B3 Hr3 [d3 [E1 E2]].
+    destruct (finish_gi n r e0 tg s3 t I3 B3) as [G4 [F1 [F2 F3]]].
     split; [exact G4|]. split; [rewrite F1; exact Hr3|]. exists d3. rewrite F3. split; assumption. }
   assert (Plain : post (fun s' => GI n s' t /\ par s' r = r /\ disp1 r e0 s s') (Ok (finish r e0 tg s2))).
-  { simpl. apply Fin; [exact I2 | apply pix_of_pi; exact H2 | exact B2 | exact Hr2 | exact D2]. }
+  { simpl. apply Fin; [exact I2 | exact B2 | exact Hr2 | exact D2]. }
   destruct e0 as [i|a b|a b|a|a|]; try exact Plain.
   destruct (existsb (Nat.eqb a) ms); [|exact Plain].
-  (* prepare_unregister_complete(a), a still listed: a detaches *)
-  assert (Hp : pend s2 a = true).
-  { specialize (H2 a). unfold occ in H2. rewrite !cnt_cons in H2. simpl in H2. rewrite Nat.eqb_refl in H2.
-    destruct (pend s2 a); [reflexivity | lia]. }
-  destruct (complete_progress n a s2 I2 Hp) as [s0 Hs0]. unfold completeX. rewrite Hs0.
+  (* prepare_unregister_complete(a), a still listed *)
+  unfold completeX. destruct (pend s2 a) eqn:Hp.
+  2:{ (* stale: ignored *)
+      assert (E : complete n a s2 = Ok s2) by (unfold complete; rewrite Hp; reflexivity).
+      rewrite E. cbn [with_fx]. cbv beta iota delta [post]. apply Fin; assumption. }
+  destruct (complete_progress n a s2 I2 Hp) as [s0 Hs0]. rewrite Hs0.
   cbn [with_fx]. cbv beta iota delta [post].
   destruct (complete_inv _ _ _ _ I2 Hs0) as [I0 Hroots].
   pose proof (complete_disp _ _ _ _ Hs0) as Dd.
-  destruct (complete_ok _ _ _ _ Hs0) as [_ Hrest].
+  destruct (complete_ok _ _ _ _ Hs0) as [[Hp' _]|[_ Hrest]]; [congruence|].
   destruct (Hrest (i_pend _ _ _ _ _ _ _ _ I2 a Hp)) as [f [_ E]].
   assert (Hcn : rt s2 a < n).
   { apply (i_rtlt _ _ _ _ _ _ _ _ I2). apply (i_kidlt _ _ _ _ _ _ _ _ I2 (par s2 a)).
@@ -1335,19 +1312,15 @@ Proof.
     apply (i_pend _ _ _ _ _ _ _ _ I2 a Hp). symmetry. exact X. }
   apply Fin.
   - exact I0.
-  - (* a's completion event is consumed, a is no longer pending *)
-    intro c. specialize (H2 c). unfold occ in *. subst s0. proj. rewrite !cnt_cons in H2.
-    rewrite !qcount_enq_other by reflexivity. simpl in H2 |- *.
-    destruct (Nat.eq_dec c a) as [->|N].
-    + rewrite upd_same. rewrite Nat.eqb_refl in H2. destruct (pend s2 a); lia.
-    + rewrite upd_other by exact N. rewrite (proj2 (Nat.eqb_neq _ _) N) in H2. lia.
-  - intros e A. specialize (B2 e A). unfold tot, gh in *. subst s0. proj.
-    destruct (ev_eqb e (Unregistered a (par s2 a))) eqn:Ee.
-    + apply ev_eqb_eq in Ee. subst e. rewrite qcount_enq_same by exact Hcn.
-      simpl in B2 |- *. unfold cntp in *. simpl. rewrite !Nat.eqb_refl. simpl. lia.
-    + rewrite qcount_enq_other by exact Ee.
-      destruct e as [|x y|x y| | |]; simpl in A; try discriminate; simpl in B2 |- *; [exact B2|].
-      unfold cntp in *. simpl. simpl in Ee. rewrite Ee. exact B2.
+  - intros e A. specialize (B2 e A). subst s0.
+    match goal with |- context [refire ?l a ?s4] => destruct (refire_frame l a s4) as [_ [_ [_ [_ [_ [_ [A7 [A8 [A9 _]]]]]]]]] end.
+    unfold tot in *. proj. rewrite A9. rewrite refire_qcount by (intro d0; apply (isann_prep e d0 A)). proj.
+    destruct e as [|x y|x y| | |]; simpl in A; try discriminate; unfold gh in *; proj.
+    + rewrite A7. proj. rewrite qcount_enq_other by reflexivity. exact B2.
+    + rewrite A8. proj. destruct (ev_eqb (Unregistered x y) (Unregistered a (par s2 a))) eqn:Ee.
+      * apply ev_eqb_eq in Ee. inversion Ee; subst x y. rewrite qcount_enq_same by exact Hcn.
+        unfold cntp in *. simpl. rewrite !Nat.eqb_refl. simpl. lia.
+      * rewrite qcount_enq_other by exact Ee. unfold cntp in *. simpl. simpl in Ee. rewrite Ee. exact B2.
   - proj. apply Hroots. exact Hr2.
   - destruct D2 as [d' [E1 E2]]. exists d'. proj. rewrite Dd. split; assumption.
 Qed.
@@ -1393,14 +1366,9 @@ Definition flush_start (r : comp) (s : st) : st :=
 
 Lemma flush_start_gi : forall n r s evs, GI n s [] -> r < n -> Permutation evs (q s r) -> GI n (flush_start r s) evs.
 Proof.
-  intros n r s evs [I [H B]] Hrn P. split; [exact I|]. split.
-  - intro c. specialize (H c). unfold occ, flush_start in *. proj. rewrite !cnt_nil in H.
-    rewrite (cnt_perm _ _ _ P), (cnt_perm (PrepDone c) _ _ P).
-    pose proof (qcount_upd n (PrepUnreg c) (q s) r [] Hrn) as E1.
-    pose proof (qcount_upd n (PrepDone c) (q s) r [] Hrn) as E2.
-    rewrite cnt_nil in E1, E2. simpl. lia.
-  - intros e A. specialize (B e A). unfold tot, gh, flush_start in *. proj. rewrite cnt_nil in B.
-    rewrite (cnt_perm _ _ _ P). pose proof (qcount_upd n e (q s) r [] Hrn) as E1. rewrite cnt_nil in E1. lia.
+  intros n r s evs [I B] Hrn P. split; [exact I|].
+  intros e A. specialize (B e A). unfold tot, gh, flush_start in *. proj. rewrite cnt_nil in B.
+  rewrite (cnt_perm _ _ _ P). pose proof (qcount_upd n e (q s) r [] Hrn) as E1. rewrite cnt_nil in E1. lia.
 Qed.
 
 Lemma flush_post : forall n r sched s, GI n s [] -> par s r = r -> r < n ->
@@ -1433,7 +1401,7 @@ Proof.
   intros c0 n c p s rem G. pose proof (register_safe n c p s (proj1 G)) as S. unfold registerX.
   destruct (register n c p s) as [s'| | | |] eqn:R; try exact S.
   simpl. destruct (register_fields _ _ _ _ _ R) as [_ [_ [_ [_ Fx]]]].
-  apply gi_set_fx; [eapply register_gi; eassumption|]. rewrite Fx. reflexivity.
+  apply gi_set_fx. eapply register_gi; eassumption.
 Qed.
 
 Lemma unregisterX_post : forall c0 n c s rem, GI n s rem -> post (fun s' => GI n s' rem) (unregisterX c0 n c s).
@@ -1441,7 +1409,7 @@ Proof.
   intros c0 n c s rem G. unfold unregisterX.
   destruct (unregister n c s) as [s'| | | |] eqn:U; simpl; try exact Logic.I.
   - destruct (unregister_gi _ _ _ _ _ G U) as [G' [_ [_ [_ E4]]]].
-    apply gi_set_fx; [exact G'|]. rewrite E4. destruct (pend s c); reflexivity.
+    apply gi_set_fx. exact G'.
   - unfold unregister in U. destruct ((c <? n) && negb (par s c =? c)); [destruct (pend s c)|]; discriminate.
   - unfold unregister in U. destruct ((c <? n) && negb (par s c =? c)); [destruct (pend s c)|]; discriminate.
 Qed.
@@ -1451,7 +1419,7 @@ Proof.
   intros c0 n x i s rem G. unfold fireX.
   destruct (fire n x i s) as [s'| | | |] eqn:F; simpl; try exact Logic.I.
   - destruct (fire_gi _ _ _ _ _ _ G F) as [G' [_ [_ [_ E4]]]].
-    apply gi_set_fx; [exact G'|]. rewrite E4. reflexivity.
+    apply gi_set_fx. exact G'.
   - unfold fire in F. destruct (x <? n); discriminate.
   - unfold fire in F. destruct (x <? n); discriminate.
 Qed.
@@ -1479,11 +1447,9 @@ Qed.
 
 Lemma gi_init : forall n, GI n init [].
 Proof.
-  intro n. split; [apply inv_init|]. split.
-  - intro c. unfold occ. change (q init) with (fun _ : comp => @nil ev).
-    rewrite !qcount_empty, !cnt_nil. change (wl (fx init)) with (@nil (nat * comp)). unfold wcount. simpl. lia.
-  - intros e A. unfold tot, gh. change (q init) with (fun _ : comp => @nil ev).
-    rewrite qcount_empty, cnt_nil. destruct e; reflexivity.
+  intro n. split; [apply inv_init|].
+  intros e A. unfold tot, gh. change (q init) with (fun _ : comp => @nil ev).
+  rewrite qcount_empty, cnt_nil. destruct e; reflexivity.
 Qed.
 
 Lemma run_gi : forall n h s, run n h init = Ok s -> GI n s [].
@@ -1514,7 +1480,7 @@ Proof. intros n h s c H. eapply inv_pending_attached. eapply run_inv0; exact H. 
 Lemma run_deliveries : forall n h s d, run n h init = Ok s -> In d (disp s) -> d_ok d = true.
 Proof. intros n h s d H. apply (i_disp _ _ _ _ _ _ _ _ (run_inv0 _ _ _ H)). Qed.
 
-Lemma run_detach_connected : forall n h s c s', run n h init = Ok s -> complete n c s = Ok s' ->
+Lemma run_detach_connected : forall n h s c s', run n h init = Ok s -> pend s c = true -> complete n c s = Ok s' ->
   par s' c = c /\ pend s' c = false /\ kid s' (par s c) c = false /\
   (forall x, desc (kid s) c x ->
      rt s' x = c /\ desc (kid s') c x /\ (x <> c -> par s' x = par s x /\ kid s' (par s x) x = kid s (par s x) x)) /\
@@ -1540,14 +1506,14 @@ Proof. intros n h s c p s' H. apply register_queue. eapply run_inv0; exact H. Qe
 Lemma run_announce_registered : forall n h s c p, run n h init = Ok s ->
   qcount n (q s) (Registered c p) + dcount (disp s) (Registered c p) = cntp c p (regd s).
 Proof.
-  intros n h s c p R. destruct (run_gi _ _ _ R) as [_ [_ B]].
+  intros n h s c p R. destruct (run_gi _ _ _ R) as [_ B].
   specialize (B (Registered c p) eq_refl). unfold tot, gh in B. rewrite cnt_nil in B. lia.
 Qed.
 
 Lemma run_announce_unregistered : forall n h s c p, run n h init = Ok s ->
   qcount n (q s) (Unregistered c p) + dcount (disp s) (Unregistered c p) = cntp c p (unregd s).
 Proof.
-  intros n h s c p R. destruct (run_gi _ _ _ R) as [_ [_ B]].
+  intros n h s c p R. destruct (run_gi _ _ _ R) as [_ B].
   specialize (B (Unregistered c p) eq_refl). unfold tot, gh in B. rewrite cnt_nil in B. lia.
 Qed.
 
@@ -1710,15 +1676,14 @@ Qed.
 Lemma dispatch_good : forall n r e0 hs tg t s, GI n s (e0 :: t) -> par s r = r ->
   item_pre n r ((e0, hs), tg) s -> good (dispatch n r ((e0, hs), tg) s).
 Proof.
-  intros n r e0 hs tg t s [I [H B]] Hr [Hok Hh]. unfold dispatch. simpl in Hok, Hh.
-  pose proof (lookup_fx n r e0 s) as Lx.
-  destruct (lookup n r e0 s) as [s1 ms] eqn:Hl. simpl in Hok, Hh, Lx. rewrite Hok. cbv zeta.
+  intros n r e0 hs tg t s [I B] Hr [Hok Hh]. unfold dispatch. simpl in Hok, Hh.
+  destruct (lookup n r e0 s) as [s1 ms] eqn:Hl. simpl in Hok, Hh. rewrite Hok. cbv zeta.
   destruct (lookup_inv _ _ _ _ _ _ I Hr Hl) as [I1 [Hms T]].
   destruct T as [T1 [T2 [T3 [T4 [T5 [T6 [T7 T8]]]]]]].
-  destruct (gi_same n s s1 (e0 :: t) H B T5 T4 T8 T6 T7 Lx) as [H1 B1].
+  pose proof (gi_same n s s1 (e0 :: t) B T5 T8 T6 T7) as B1.
   assert (Hr1 : par s1 r = r) by (rewrite T1; exact Hr).
   fold (ctx_of r tg).
-  pose proof (handlers_good (ctx_of r tg) n r hs ms true s1 (e0 :: t) (conj I1 (conj H1 B1)) Hr1 Hh) as Gh.
+  pose proof (handlers_good (ctx_of r tg) n r hs ms true s1 (e0 :: t) (conj I1 B1) Hr1 Hh) as Gh.
   destruct (run_handlers (ctx_of r tg) n r ms hs true s1) as [[s1' ok]| | | |]; try contradiction; try exact Logic.I.
   destruct e0; try exact Logic.I.
   destruct (existsb (Nat.eqb c) ms); [|exact Logic.I].
@@ -1905,3 +1870,92 @@ Proof.
            intros s2 _. split; [exact I | intros; exact I].
     + intros; exact I.
 Qed.
+
+(* ================================================================== a detaching component restarts the pending unregistrations of its members *)
+
+Lemma last_cons_shift : forall (k c : comp) l, last (k :: l) c = last l k.
+Proof.
+  intros k c l. revert k c. induction l as [|a t IH]; intros k c; [reflexivity|].
+  change (last (k :: a :: t) c) with (last (a :: t) c). rewrite (IH a c). symmetry. apply IH.
+Qed.
+
+Lemma desc_chain : forall kd c x, desc kd c x -> exists l, chain kd c l /\ last l c = x.
+Proof.
+  intros kd c x H. induction H as [c | c k x Hk Hd [l [Hc Hl]]].
+  - exists []. split; [constructor | reflexivity].
+  - exists (k :: l). split; [constructor; assumption|]. rewrite last_cons_shift. exact Hl.
+Qed.
+
+Lemma reachb_chain : forall n kd, (forall a b, kd a b = true -> b < n) ->
+  forall l c fuel, chain kd c l -> length l < fuel -> reachb n fuel kd c (last l c) = true.
+Proof.
+  intros n kd Hlt. induction l as [|k t IH]; intros c fuel Hc Hf.
+  - destruct fuel; [inversion Hf|]. simpl. rewrite Nat.eqb_refl. reflexivity.
+  - destruct fuel as [|f]; [inversion Hf|]. inversion Hc as [|c' k' t' Hk Ht]; subst.
+    rewrite last_cons_shift. cbn [reachb]. destruct (last t k =? c); [reflexivity|].
+    apply existsb_exists. exists k. split.
+    + apply in_seq. split; [lia|]. simpl. eapply Hlt; exact Hk.
+    + rewrite Hk. apply IH; [exact Ht | simpl in Hf; lia].
+Qed.
+
+(* the getHandlers / subtree recursion reaches every member of the subtree *)
+Lemma members_complete : forall n kd c x,
+  (forall a b, kd a b = true -> b < n) ->
+  (exists rk : comp -> nat, forall a b, kd a b = true -> rk a < rk b) ->
+  c < n -> desc kd c x -> In x (members n kd c).
+Proof.
+  intros n kd c x Hlt [rk Hrk] Hc D.
+  destruct (desc_chain _ _ _ D) as [l [Hch Hl]].
+  destruct (chain_nodup kd rk Hrk l c Hch) as [_ Hnd].
+  assert (Hincl : incl (c :: l) (seq 0 n)).
+  { intros y Hy. apply in_seq. split; [lia|]. simpl.
+    destruct Hy as [<-|Hy]; [exact Hc | eapply chain_lt; eassumption]. }
+  pose proof (NoDup_incl_length Hnd Hincl) as Hlen. rewrite seq_length in Hlen. simpl in Hlen.
+  unfold members. apply filter_In. split.
+  - apply Hincl. subst x. destruct l as [|k t]; [left; reflexivity|].
+    right. rewrite last_cons_shift. clear - t. revert k. induction t as [|a t IH]; intro k; [left; reflexivity|].
+    rewrite last_cons_shift. right. apply IH.
+  - subst x. apply reachb_chain; [exact Hlt | exact Hch | lia].
+Qed.
+
+Lemma refire_q : forall l c s, q (refire l c s) c = q s c ++ map PrepUnreg l.
+Proof.
+  induction l as [|d t IH]; intros c s; simpl; [symmetry; apply app_nil_r|].
+  fold (refire t c (enq c (PrepUnreg d) s)). rewrite IH. proj. rewrite upd_same, <- app_assoc. reflexivity.
+Qed.
+
+Lemma detach_restarts : forall n c s s', Inv n s -> pend s c = true -> complete n c s = Ok s' ->
+  forall d, d <> c -> desc (kid s') c d -> pend s' d = true ->
+  rt s' d = c /\ In (PrepUnreg d) (q s' (rt s' d)).
+Proof.
+  intros n c s s' I Hp H d Nd D Pd.
+  destruct (detach_connected _ _ _ _ I Hp H) as [_ [_ [_ [Hin _]]]].
+  destruct (complete_ok _ _ _ _ H) as [[Hp' _]|[_ Hrest]]; [congruence|].
+  assert (Hatt : par s c <> c) by (apply (i_pend _ _ _ _ _ _ _ _ I); exact Hp).
+  destruct (Hrest Hatt) as [f [Hu E]].
+  assert (Hkc : kid s (par s c) c = true).
+  { apply (i_kid _ _ _ _ _ _ _ _ I). split; [reflexivity | congruence]. }
+  assert (Hcn : c < n) by (eapply (i_kidlt _ _ _ _ _ _ _ _ I); exact Hkc).
+  assert (Hsub : forall a b, upd2 (kid s) (par s c) c false a b = true -> kid s a b = true).
+  { intros a b X. destruct (Nat.eq_dec a (par s c)) as [->|Na]; destruct (Nat.eq_dec b c) as [->|Nb];
+      try (rewrite upd2_same in X; discriminate); (rewrite upd2_other in X by tauto); exact X. }
+  (* the links and pending flags of s' *)
+  assert (K' : kid s' = upd2 (kid s) (par s c) c false /\ pend s' d = pend s d).
+  { rewrite E. match goal with |- kid (refire ?l c ?s4) = _ /\ _ => destruct (refire_frame l c s4) as [_ [_ [A3 [A4 _]]]] end.
+    rewrite A3, A4. proj. split; [reflexivity | apply upd_other; exact Nd]. }
+  destruct K' as [K' P']. rewrite K' in D. rewrite P' in Pd.
+  assert (Dold : desc (kid s) c d) by (eapply desc_mono; [exact Hsub | exact D]).
+  destruct (Hin d Dold) as [Hr _]. split; [exact Hr|]. rewrite Hr.
+  assert (InL : In d (refire_list n c s)).
+  { unfold refire_list. rewrite (proj2 (Nat.eqb_neq _ _) Hatt). apply filter_In. split.
+    - apply members_complete; [| | exact Hcn | exact D].
+      + intros a b X. eapply (i_kidlt _ _ _ _ _ _ _ _ I). apply Hsub. exact X.
+      + destruct (inv_rank_down _ _ _ _ _ _ _ _ I) as [rk Hrk]. exists rk. intros a b X. apply Hrk. apply Hsub. exact X.
+    - rewrite (proj2 (Nat.eqb_neq _ _) Nd), Pd. reflexivity. }
+  rewrite E, refire_q. apply in_or_app. right. apply in_map. exact InL.
+Qed.
+
+Lemma run_detach_restarts : forall n h s c s', run n h init = Ok s -> pend s c = true -> complete n c s = Ok s' ->
+  forall d, d <> c -> desc (kid s') c d -> pend s' d = true ->
+  rt s' d = c /\ In (PrepUnreg d) (q s' (rt s' d)).
+Proof. intros n h s c s' R. apply detach_restarts. eapply run_inv0; exact R. Qed.
